@@ -75,8 +75,9 @@ def rule_interpreter_state(rep: Report, repo: Repo) -> None:
             f'{kind} is called in {sorted({q for _, q, _, c in setters if dotted(c.func) == kind})} but not by assemble() before its first stage ' \
             f'({dotted(order[first_stage].func)}): that stage runs under the value the previous call left behind'
         for c in early:
-            free = {n.id for a in c.args for n in ast.walk(a) if isinstance(n, ast.Name)} - params - consts
-            if free or any(isinstance(n, (ast.Call, ast.Attribute)) for a in c.args for n in ast.walk(a)):
+            args_ = [resolve_names(asm, a) for a in c.args]                  # a named limit reads as the expression it names
+            free = {n.id for a in args_ for n in ast.walk(a) if isinstance(n, ast.Name)} - params - consts
+            if free or any(isinstance(n, (ast.Call, ast.Attribute)) for a in args_ for n in ast.walk(a)):
                 ok = False
                 why = f'the value handed to {kind} is not a function of assemble()\'s own arguments and constants ({sorted(free)})'
         rep.check(ok, 'C13.INTERPRETER-STATE', kind, why, repo.site(ASM, asm), expected='set first, from the call\'s own arguments')
